@@ -73,4 +73,63 @@ theorem C11_fact_teardown_releases :
     v1RunExitsBeforeDefer = ["if err != nil return err"] :=
   ⟨by decide, by decide, by decide, by decide, ⟨rfl, rfl, by decide⟩⟩
 
+/-- arch-v2 `runPipeline`'s open phase: `sink.Open` failing returns at once (nothing of any worker is
+closed); worker `i` failing closes the workers in `opened` (appended only AFTER a successful `Open`,
+so not worker `i`, not the later ones) and the sink, then returns. (model: `openPhaseV2`,
+`workersOpen`: `some (ps ++ closed ++ sinkProcs)`) -/
+theorem C11_fact_v2_open_phase :
+    v2OpenPhase = ["if err := rp.sink.Open(ctx); err != nil return",
+      "opened := make([]*funnel.Worker, 0, len(rp.workers))",
+      "for i, w := range rp.workers {",
+      "| if err := w.Open(ctx); err != nil {",
+      "| | for j := len(opened) - 1; j >= 0; j-- {",
+      "| | | _ = opened[j].Close(context.Background())",
+      "| | }",
+      "| | _ = rp.sink.Close(context.Background())",
+      "| | return error",
+      "| }",
+      "| opened = append(opened, w)",
+      "}"] := by decide
+
+/-- `Worker.Open` / `Sink.Open`: a task's `Close` joins the rollback only AFTER its `Open` succeeded;
+the first failure returns: the failing task and the tasks after it are neither opened nor closed.
+`ProcessorTask.Open` does not release anything when the processor's `Open` fails.
+(model: `openSeq`: the processors opened before the first failure) -/
+theorem C11_fact_open_rollback_covers_opened_only :
+    workerOpen = ["var r rollback.R",
+      "defer func() { rollbackErr := r.Execute() err = cerrors.LogOrReplace(err, rollbackErr, func() { w.logger.Err(ctx, rollbackErr).Msg(\"failed to execute rollback\") }) }()",
+      "sourceOpened := false",
+      "for task := range w.FirstTask.Tasks() {",
+      "| err = task.Open(ctx)",
+      "| if err != nil return error",
+      "| if !sourceOpened {",
+      "| | sourceOpened = true",
+      "| | r.Append(func() error { return w.tearDownSource(ctx) })",
+      "| }",
+      "| r.Append(func() error { return task.Close(ctx) })",
+      "}",
+      "err = w.DLQ.Open(ctx)",
+      "if err != nil return error",
+      "r.Skip()",
+      "return nil"] ∧
+    sinkOpen = ["var r rollback.R",
+      "defer func() { rollbackErr := r.Execute() err = cerrors.LogOrReplace(err, rollbackErr, func() {}) }()",
+      "for _, root := range s.roots {",
+      "| for task := range root.Tasks() {",
+      "| | err = task.Open(ctx)",
+      "| | if err != nil return error",
+      "| | r.Append(func() error { return task.Close(ctx) })",
+      "| }",
+      "}",
+      "r.Skip()",
+      "return nil"] ∧
+    processorTaskOpen = ["err := t.processor.Open(ctx)", "if err != nil return error", "return nil"] :=
+  ⟨rfl, by decide, by decide⟩
+
+/-- v1 `runPipeline` runs EVERY node unconditionally (one `rp.t.Go` per node whose body calls
+`node.Run` once) — together with `C11_fact_teardown_releases` (the teardown is deferred before `Open`)
+every processor of a v1 run is released whichever node fails. (model: v1 `.start` → `.ran`) -/
+theorem C11_fact_v1_runs_every_node :
+    v1NodeLoop = ["nodesWg.Add", "rp.t.Go { node.Run }"] := by decide
+
 end Conduit.Facts.C11Build
